@@ -20,13 +20,14 @@ ASSUMPTIONS = [
     "live-trade counts after a restart are compared for single-order trades only (multi-order trades cannot be reconstructed from exchange data)",
 ]
 WATCHDOG = {"quick": 900, "thorough": 3600}
-SPECS = [(701, "BACK", 3.0, 10.0), (701, "LAY", 2.0, 10.0), (702, "BACK", 5.0, 6.0)]
+SPECS = [(701, "BACK", 3.0, 10.0, 0), (701, "LAY", 2.0, 10.0, 0), (702, "BACK", 5.0, 6.0, 0)]
+HC_SPEC = (704, "LAY", 4.0, 8.0, -1.5)  # a handicap line: runner contexts are keyed (market, selection, handicap)
 
 
 def plan(tier, seed):
     cases = []
     depth = 6 if tier == "quick" else 7
-    for cfg in ({"n": 1, "async": False}, {"n": 1, "async": True}, {"n": 2, "async": False}):
+    for cfg in ({"n": 1, "async": False}, {"n": 1, "async": True}, {"n": 2, "async": False}, {"n": 1, "async": False, "hc": True}):
         d = depth if cfg["n"] == 1 else depth - 1
         for c0 in range(4):
             for c1 in range(8):
@@ -34,7 +35,7 @@ def plan(tier, seed):
                     cases.append({"mode": "dfs", "cfg": cfg, "prefix": [0, c0, c1, c2], "depth": d + 1})
     nwalk = 8000 if tier == "quick" else 150000
     for i in range(nwalk):
-        cases.append({"mode": "walk", "seed": seed, "idx": i, "cfg": {"n": 1 + i % 3, "async": i % 4 == 3, "foreign": i % 5 == 0}, "len": 10 + i % 5})
+        cases.append({"mode": "walk", "seed": seed, "idx": i, "cfg": {"n": 1 + i % 3, "async": i % 4 == 3, "foreign": i % 5 == 0, "hc": i % 3 == 1}, "len": 10 + i % 5})
     # directed case for the listed finding C11-restart-replaced-bet
     cases.insert(0, {"mode": "events", "cfg": {"n": 1, "async": False}, "events": [["place", 0], ["resp", 0], ["fill", 0, 0.4], ["snap"], ["replace", 0], ["resp", 0], ["snap"], ["restart"]]})
     return cases
@@ -115,8 +116,8 @@ class Run:
 
         try:
             if k == "place":
-                sel, side, price, size = SPECS[e[1]]
-                o = livecases.make_order(st, self.mid, sel=sel, side=side, price=price, size=size)
+                sel, side, price, size, hc = HC_SPEC if (self.cfg.get("hc") and e[1] == 0) else SPECS[e[1]]
+                o = livecases.make_order(st, self.mid, sel=sel, side=side, price=price, size=size, handicap=hc)
                 self.refs[e[1]] = o.customer_order_ref
                 self.objs[e[1]] = o
                 self.placed += 1
@@ -266,7 +267,7 @@ def judge(run, out):
             ctx = st.get_runner_context(run.mid, sel[0], sel[1])
             if ctx.live_trade_count != len(live_refs):
                 out.v("live-trade-count-differs-from-exchange-table", dict(tags, shared_ref=len({b["customerOrderRef"] for b in mine}) < len(mine), direction="over" if ctx.live_trade_count > len(live_refs) else "under"), ctx=ctx.live_trade_count, expected=len(live_refs), log=run.log)
-    out.d("seq:" + repr(run.log))
+    out.d("seq:%s%s%s:%r" % (run.cfg.get("n"), "a" if run.cfg.get("async") else "s", "h" if run.cfg.get("hc") else "", run.log))
     out.c("interleavings")
 
 
